@@ -30,6 +30,8 @@ type Thread struct {
 	pos       token.Pos
 	curFn     *ssa.Function
 	visible   bool // the sync operation being executed was called from instrumentable repo code
+	joinable  bool // started by the harness through vrtGo (vrtJoin waits for these)
+	paused    bool // preempted in "preempt" mode: runs again only when nothing else can
 	quiescing bool // blocked in vrtQuiesce (waiting for everybody else to block)
 	noPoints  int  // >0: inside a composite primitive (Cond.Wait): no scheduling points
 }
@@ -54,8 +56,16 @@ func (e *Engine) newThread(parent *Thread) *Thread {
 	return th
 }
 
-func (th *Thread) enabled() bool {
+// couldRun: enabled, or suspended by a preemption but otherwise able to run.
+func (th *Thread) couldRun() bool {
 	if th.finished || th.killed {
+		return false
+	}
+	return th.blocked == nil || th.blocked()
+}
+
+func (th *Thread) enabled() bool {
+	if th.finished || th.killed || th.paused {
 		return false
 	}
 	return th.blocked == nil || th.blocked()
@@ -157,6 +167,15 @@ func (s *schedState) pickAfterBlock(cur *Thread) *Thread {
 	if e.threads[0].enabled() {
 		return e.threads[0]
 	}
+	// nothing else can run: a preempted (paused) thread continues
+	for _, t := range e.threads {
+		if t.paused && !t.finished && !t.killed {
+			t.paused = false
+			if t.enabled() {
+				return t
+			}
+		}
+	}
 	return nil
 }
 
@@ -222,6 +241,9 @@ func (th *Thread) yield(what string) {
 			c := e.path.Choose(len(others) + 1)
 			if c != 0 {
 				s.preempt++
+				if e.w.cfg.Sched == "preempt" {
+					th.paused = true // stays suspended until nothing else can run
+				}
 				s.switchTo(th, others[c-1])
 			}
 		}
